@@ -288,7 +288,7 @@ int main(int argc, char **argv) {
             close(pfd[0]); outfd = pfd[1];
             int nul = open("/dev/null", O_WRONLY);
             if (nul >= 0) { dup2(nul, 1); dup2(nul, 2); }   /* show_help messages */
-            alarm(20);
+            hc_alarm(20);
             do_case(l);
             _exit(0);
         }
